@@ -423,3 +423,27 @@ def emptiness(cond):
     if c.get("k") in ("DeclRefExpr",) and "*" in (c.get("t") or ""):
         return _txt(c), neg                 # if (p): true means not null
     return None
+
+
+def relation(cond):
+    """(lhs, op, rhs) of a comparison with the literal / constant operand moved to the right-hand side (`1 > n` is read as `n < 1`);
+    leading negations are folded into the operator; None when the condition is not a comparison"""
+    from .facts import strip as _strip, const_val as _cv
+    c = _strip(cond)
+    neg = False
+    while c is not None and c.get("k") == "UnaryOperator" and c.get("op") == "!":
+        neg = not neg
+        c = _strip(c["c"][0])
+    if c is None or c.get("k") != "BinaryOperator" or c.get("op") not in ("<", "<=", ">", ">=", "==", "!="):
+        return None
+    a, b, op = c["c"][0], c["c"][1], c["op"]
+
+    def is_const(e):
+        e = _strip(e)
+        return e is not None and (e.get("k") in ("IntegerLiteral", "FloatingLiteral", "CXXNullPtrLiteralExpr") or _cv(e) is not None)
+    if is_const(a) and not is_const(b):
+        a, b = b, a
+        op = {"<": ">", ">": "<", "<=": ">=", ">=": "<="}.get(op, op)
+    if neg:
+        op = {"<": ">=", ">=": "<", ">": "<=", "<=": ">", "==": "!=", "!=": "=="}[op]
+    return a, op, b
